@@ -16,6 +16,9 @@ def build():
     os.makedirs(os.path.join(VERIF, "witness"), exist_ok=True)
     for e in load_known()["known"]:
         tag, prop = e["id"], e["property"]
+        if tag == "F-SIZE":
+            build_size(e)
+            continue
         if tag not in hazards.FAMILIES:
             continue
         found = None
@@ -46,6 +49,33 @@ def build():
         with open(path, "w") as f:
             json.dump(payload, f, indent=1, sort_keys=True)
         print(tag, prop, oracle, len(small["steps"]), "steps ->", e["witness"])
+
+
+def build_size(e):
+    from . import size_family
+    import itertools
+    prop = "C15"
+    for u in size_family.units(prop, "quick", 0, itertools.count()):
+        g, seed = u[1]
+        if g == "witness":
+            continue
+        run = size_family.make_run(g, seed)
+        sim = run_sim(copy.deepcopy(run), {prop})
+        if {"getter_while_running", "limit_in_force"} <= {v["oracle"] for v in sim.viol}:
+            break
+    oracle = "limit_in_force"
+
+    def fails(r):
+        s = run_sim(copy.deepcopy(r), {prop})
+        return any(v["oracle"] == oracle for v in s.viol)
+    small = shrink(run, fails)
+    s = run_sim(copy.deepcopy(small), {prop})
+    msg = next(v["msg"] for v in s.viol if v["oracle"] == oracle)
+    payload = {"property": prop, "oracle": oracle, "signature": "F-SIZE", "msg": msg, "run": small,
+               "digest": s.digest(), "engine": "pool", "finding": "F-SIZE"}
+    with open(os.path.join(VERIF, e["witness"]), "w") as f:
+        json.dump(payload, f, indent=1, sort_keys=True)
+    print("F-SIZE C15", oracle, len(small["steps"]), "steps ->", e["witness"])
 
 
 if __name__ == "__main__":
